@@ -36,6 +36,9 @@ func init() {
 		"(*sync.RWMutex).RLock":   lockOp(true, true),
 		"(*sync.RWMutex).RUnlock": lockOp(false, true),
 		"sync/atomic.AddUint64":   atomicAdd,
+		"github.com/enbility/spine-go/model.writeAllowed":                 leafWriteAllowed,
+		"github.com/enbility/spine-go/model.HasIdentifiers":               leafHasIdentifiers,
+		"(*github.com/enbility/spine-go/model.FilterData).SelectorMatch": leafSelectorMatch,
 		"reflect.DeepEqual":       deepEqualCall,
 		"errors.New":              newError,
 		"fmt.Errorf":              newError,
@@ -81,6 +84,57 @@ func init() {
 		"reflect.ValueOf": nop, "(reflect.Value).Pointer": nop,
 	}
 	specialModPrefixes = map[string]specialMod{}
+}
+
+// ---------------------------------------------------------------------------
+// Reflective leaves of the update engine (model package). Their bodies walk reflect.Value and are outside the
+// verifier; each is replaced by an uninterpreted function of the *value* of the item it inspects (the item is
+// passed boxed in an interface, so the static operand behind the box is used). These are assumed contracts
+// ("abstract record view"); the bounded stand-in of the C02 check runs the real helpers against reference
+// implementations for every element type.
+//   wok(x)      writeAllowed(x)                    hasid(x)   HasIdentifiers(x)
+//   selm(fd,x)  (*FilterData).SelectorMatch(&x)    for the selector held by fd
+func (vc *VC) leafFun(name string, argSorts []string, ret string) string {
+	nm := quoteSym("leaf:" + name + ":" + strings.Join(argSorts, ","))
+	vc.decl(fmt.Sprintf("(declare-fun %s (%s) %s)", nm, strings.Join(argSorts, " "), ret))
+	vc.assumptions["reflective leaf "+name+" abstracted as an uninterpreted function of the item value (body not verified; bounded stand-in)"] = true
+	return nm
+}
+
+func (fr *Frame) boxedItem(site ssa.Instruction, k int, st *State) (*Term, string) {
+	var c *ssa.CallCommon
+	switch x := site.(type) {
+	case *ssa.Call:
+		c = &x.Call
+	case *ssa.Defer:
+		c = &x.Call
+	}
+	t, v := fr.staticIfaceOperand(c.Args[k])
+	if pt, ok := t.Underlying().(*types.Pointer); ok {
+		// pointer to the item (util.Ptr(item)): the item value
+		return fr.vc.load(st, pt.Elem(), v), fr.vc.sortOf(pt.Elem())
+	}
+	if _, isIface := t.Underlying().(*types.Interface); isIface {
+		if _, isTP := types.Unalias(t).(*types.TypeParam); !isTP {
+			fr.vc.unsupportedf("reflective leaf called on an interface value whose static type is unknown in %s", fr.fn)
+		}
+	}
+	return v, fr.vc.sortOf(t)
+}
+
+func leafWriteAllowed(fr *Frame, site ssa.Instruction, fn *ssa.Function, args []*Term, st *State) []*Term {
+	v, srt := fr.boxedItem(site, 0, st)
+	return []*Term{app(fr.vc.leafFun("wok", []string{srt}, "Bool"), v)}
+}
+
+func leafHasIdentifiers(fr *Frame, site ssa.Instruction, fn *ssa.Function, args []*Term, st *State) []*Term {
+	v, srt := fr.boxedItem(site, 0, st)
+	return []*Term{app(fr.vc.leafFun("hasid", []string{srt}, "Bool"), v)}
+}
+
+func leafSelectorMatch(fr *Frame, site ssa.Instruction, fn *ssa.Function, args []*Term, st *State) []*Term {
+	v, srt := fr.boxedItem(site, 1, st)
+	return []*Term{app(fr.vc.leafFun("selm", []string{"Int", srt}, "Bool"), args[0], v)}
 }
 
 func noResult(fr *Frame, site ssa.Instruction, fn *ssa.Function, args []*Term, st *State) []*Term {
@@ -160,6 +214,11 @@ func (fr *Frame) staticIfaceOperand(v ssa.Value) (types.Type, *Term) {
 		return x.X.Type(), fr.val(x.X)
 	case *ssa.ChangeInterface:
 		return fr.staticIfaceOperand(x.X)
+	case *ssa.ChangeType:
+		// generic bodies convert a value of a type parameter to an interface with changetype
+		if _, isTP := types.Unalias(x.X.Type()).(*types.TypeParam); isTP {
+			return x.X.Type(), fr.val(x.X)
+		}
 	}
 	return v.Type(), fr.val(v)
 }
@@ -524,7 +583,9 @@ func init() {
 		fr.vc.decl("(declare-fun indexbyte (Int Int) Int)")
 		return []*Term{app("indexbyte", args[0], args[1])}
 	}
-	for _, n := range []string{"math.Trunc", "math.Round", "math.Pow", "strconv.FormatFloat", "strings.IndexByte"} {
+	for _, n := range []string{"math.Trunc", "math.Round", "math.Pow", "strconv.FormatFloat", "strings.IndexByte",
+		"github.com/enbility/spine-go/model.writeAllowed", "github.com/enbility/spine-go/model.HasIdentifiers",
+		"(*github.com/enbility/spine-go/model.FilterData).SelectorMatch"} {
 		specialMods[n] = nopm
 	}
 }
